@@ -44,6 +44,7 @@ type InlineReport struct {
 	Rounds  int
 	Failed  string   // non-empty when the normalised program did not load and the original one is used
 	Dropped []string // helpers removed from the indexes: every call of them was inlined
+	Renamed []string // "old key -> new key": functions of the reference tree found under another name
 }
 
 // Normalize loads dir (with overlay) and inlines calls of non-baseline helpers until none is left (at most 4 rounds).
@@ -58,6 +59,7 @@ func Normalize(dir string, overlay map[string][]byte, baseline map[string]bool) 
 	if len(baseline) == 0 {
 		return p, rep, nil
 	}
+	rep.Renamed = p.applyRenames(baseline)
 	cur := map[string][]byte{}
 	for k, v := range overlay {
 		cur[k] = v
@@ -83,6 +85,7 @@ func Normalize(dir string, overlay map[string][]byte, baseline map[string]bool) 
 		rep.Inlined = append(rep.Inlined, inl...)
 		rep.Rounds = round + 1
 		np.Baseline = baseline
+		np.applyRenames(baseline)
 		p, cur = np, next
 	}
 	// helpers all of whose calls were inlined are dead code now
@@ -127,6 +130,11 @@ func inlineRound(p *Prog, baseline map[string]bool) (map[string][]byte, []string
 					continue
 				}
 				caller := p.Funcs[funcKey(pk, fd)]
+				if caller == nil {
+					if fo, isF := pk.TypesInfo.Defs[fd.Name].(*types.Func); isF {
+						caller = p.byObj[fo]
+					}
+				}
 				ctx := &inlCtx{p: p, pk: pk, file: file, tf: tf, src: src, caller: fd, callerKey: funcKey(pk, fd), baseline: baseline}
 				if caller != nil {
 					ctx.callerKey = caller.Key
@@ -1624,6 +1632,9 @@ func BaselineKeys(p *Prog) []string {
 	var out []string
 	for k, f := range p.Funcs {
 		out = append(out, k)
+		if f.Obj != nil {
+			out = append(out, "sig\t"+k+"\t"+SigString(f.Obj))
+		}
 		if f.Decl.Body == nil {
 			continue
 		}
@@ -1669,3 +1680,89 @@ func BaselineKeys(p *Prog) []string {
 
 // ShellFiles are the bash files of the shell framework.
 var ShellFiles = []string{"frameworks/shell/hook.sh", "frameworks/shell/context.sh", "shell_lib.sh"}
+
+// SigString renders the signature of fn without parameter names and without the receiver (package paths in full).
+func SigString(fn *types.Func) string {
+	sig, ok := fn.Type().(*types.Signature)
+	if !ok {
+		return ""
+	}
+	q := func(p *types.Package) string { return p.Path() }
+	var ps, rs []string
+	for i := 0; i < sig.Params().Len(); i++ {
+		t := types.TypeString(sig.Params().At(i).Type(), q)
+		if sig.Variadic() && i == sig.Params().Len()-1 {
+			t = "..." + strings.TrimPrefix(t, "[]")
+		}
+		ps = append(ps, t)
+	}
+	for i := 0; i < sig.Results().Len(); i++ {
+		rs = append(rs, types.TypeString(sig.Results().At(i).Type(), q))
+	}
+	return "(" + strings.Join(ps, ",") + ")(" + strings.Join(rs, ",") + ")"
+}
+
+// applyRenames finds functions of the reference tree that exist under another name: a reference key that is
+// missing, and exactly one function of the same package and receiver with the same signature that the reference
+// tree does not have (and no second missing key that it could be). Such a function is indexed under its reference
+// key - rules name their anchors by that key - and is not inlined.
+func (p *Prog) applyRenames(baseline map[string]bool) []string {
+	sigs := map[string]string{}
+	for k := range baseline {
+		if strings.HasPrefix(k, "sig\t") {
+			parts := strings.SplitN(k, "\t", 3)
+			if len(parts) == 3 {
+				sigs[parts[1]] = parts[2]
+			}
+		}
+	}
+	if len(sigs) == 0 {
+		return nil
+	}
+	owner := func(key string) string { // package + receiver
+		if i := strings.LastIndex(key, "."); i >= 0 {
+			return key[:i]
+		}
+		return key
+	}
+	type cand struct{ key, owner, sig string }
+	var missing, added []cand
+	for k, sg := range sigs {
+		if _, has := p.Funcs[k]; !has {
+			missing = append(missing, cand{k, owner(k), sg})
+		}
+	}
+	for k, f := range p.Funcs {
+		if !baseline[k] && f.Obj != nil {
+			added = append(added, cand{k, owner(k), SigString(f.Obj)})
+		}
+	}
+	var out []string
+	for _, m := range missing {
+		var match []cand
+		for _, a := range added {
+			if a.owner == m.owner && a.sig == m.sig {
+				match = append(match, a)
+			}
+		}
+		rivals := 0
+		for _, m2 := range missing {
+			if m2.owner == m.owner && m2.sig == m.sig {
+				rivals++
+			}
+		}
+		if len(match) != 1 || rivals != 1 {
+			continue
+		}
+		f := p.Funcs[match[0].key]
+		if f == nil {
+			continue
+		}
+		delete(p.Funcs, match[0].key)
+		f.Key = m.key
+		p.Funcs[m.key] = f
+		out = append(out, m.key+" -> "+match[0].key)
+	}
+	sort.Strings(out)
+	return out
+}
